@@ -65,6 +65,20 @@ CHECKS["C05"] = dict(
           "of the rerun recursion not verified); finite derived result columns only under A1."),
     ref="DESIGN.md section 4 C05")
 
+CHECKS["C10"] = dict(
+    engine="E2",
+    technique="contract-based deductive verification: modular VCs (thermal kernels, helper and stage contracts) from the AST, spec functions from the documented cooling law and energy balance, discharged by z3 for an arbitrary branch row / node and all array lengths; convexity lemmas over the spec",
+    text=("Both thermal kernels are proved to return the documented cooling-law residual on flowing branches, the ambient rows on "
+          "non-flowing branches/nodes, the mixing terms with the heat capacity handed in, and the infeed set; the stage "
+          "calculate_derivatives_thermal is proved (callee contracts applied) to write these as functions of the pit columns with "
+          "the mixing weight |m|(cp(T_out)+cp(T_node))/2 demanded by the statement and the flow-direction-corrected end nodes; "
+          "convexity lemmas (outlet between inlet and ambient; mix between entering temperatures, induction step) are proved over the spec."),
+    note=(TB + "floats as reals with a NaN flag on the mass flow (A1), exp uninterpreted with exp>0, exp(0)=1, monotone sign axioms (A3), "
+          "heat capacity/density uninterpreted positive functions. Assembly of these rows into the linear system and the imposed feed "
+          "temperatures are part of the matrix-assembly obligations (engine E3); transient mode is not covered; the network-wide "
+          "temperature bound is the induction of the two proved lemmas over the flow DAG (paper argument)."),
+    ref="DESIGN.md section 4 C10")
+
 NOT_APPLICABLE = {
     "C08": "uniqueness of the solution of the nonlinear system within tolerances and convergence of damped Newton in floating point: a whole-history/analytic property, no pre/post contract within reach expresses it (DESIGN.md section 5)",
     "C15": "the save/load round trip is the behaviour of pandapower/pandas/json/pickle/scipy object state; a contract strong enough would have to assume the property (DESIGN.md section 5)",
